@@ -195,27 +195,36 @@ Definition scan_sign (inp : text) (n : nat) : bool * text * nat :=
   | [] => (false, inp, n)
   end.
 
-(* scanf integer conversion: white space, sign, base prefix (x/X and i accept 0x when a hex digit
-   follows; i takes a leading 0 as octal), at least one digit.  Result: sign, magnitude,
-   characters consumed (what %n reports), or None = matching/input failure. *)
-Definition scan_int_text (conv : byte) (inp : text) : option (bool * N * nat) :=
-  let '(r1, n1) := skip_ws inp 0 in
-  let '(neg, r2, n2) := scan_sign r1 n1 in
-  let b0 := if conv =? 105 then 0 else conv_base conv in
-  let hexpfx := match r2 with
-                | z :: x :: h :: _ =>
-                  (z =? c_zero) && ((x =? c_x) || (x =? c_X)) && ((b0 =? 16) || (b0 =? 0))
-                  && (match digit_in 16 h with Some _ => true | None => false end)
-                | _ => false
-                end in
+(* x/X and i accept a 0x / 0X prefix when a hex digit follows *)
+Definition has_hex_prefix (b0 : N) (r : text) : bool :=
+  match r with
+  | z :: x :: h :: _ =>
+    (z =? c_zero) && ((x =? c_x) || (x =? c_X)) && ((b0 =? 16) || (b0 =? 0))
+    && (match digit_in 16 h with Some _ => true | None => false end)
+  | _ => false
+  end.
+
+(* base detection and the digits (after white space and sign): magnitude, characters consumed so far *)
+Definition scan_int_body (b0 : N) (r2 : text) (n2 : nat) : option (N * nat) :=
   let '(base, r3, n3) :=
-    if hexpfx then (16, skipn 2 r2, S (S n2))
+    if has_hex_prefix b0 r2 then (16, skipn 2 r2, S (S n2))
     else if b0 =? 0 then (match r2 with z :: _ => if z =? c_zero then 8 else 10 | [] => 10 end, r2, n2)
     else (b0, r2, n2) in
   let '(mag, k, _) := scan_digits base r3 0 O in
   match k with
   | O => None
-  | _ => Some (neg, mag, (n3 + k)%nat)
+  | _ => Some (mag, (n3 + k)%nat)
+  end.
+
+(* scanf integer conversion: white space, sign, base prefix (i takes a leading 0 as octal), at least
+   one digit.  Result: sign, magnitude, characters consumed (what %n reports), or None =
+   matching/input failure. *)
+Definition scan_int_text (conv : byte) (inp : text) : option (bool * N * nat) :=
+  let '(r1, n1) := skip_ws inp 0 in
+  let '(neg, r2, n2) := scan_sign r1 n1 in
+  match scan_int_body (if conv =? 105 then 0 else conv_base conv) r2 n2 with
+  | Some (mag, n) => Some (neg, mag, n)
+  | None => None
   end.
 
 (* what ends up in `long tmp = 0` and is then handed to assign(a, $I(tmp)):
@@ -399,6 +408,12 @@ Definition print_item (cf : config) (it : pitem) : text :=
    File sink: appended.  Either way the text is the concatenation and the returned position
    is start + its length. *)
 Definition print_items (cf : config) (its : list pitem) : text := flat_map (print_item cf) its.
+
+(* sink content and returned position after print_to_with(out, pos, ...) *)
+Definition print_to_string (cf : config) (old : text) (pos : nat) (its : list pitem) : text * nat :=
+  (firstn pos old ++ print_items cf its, (pos + length (print_items cf its))%nat).
+Definition print_to_file (cf : config) (old : text) (pos : nat) (its : list pitem) : text * nat :=
+  (old ++ print_items cf its, (pos + length (print_items cf its))%nat).
 
 (* scan side *)
 Inductive sitem :=
